@@ -140,3 +140,12 @@ package remux
 //@   assert after "copy(payload[1:], pkt.Payload)"@3 [C07.feed.opus] int: len(payload) == len(pkt.Payload) + 1 && payload[0] == 0xdf && forall i in [0, len(pkt.Payload)) :: payload[1 + i] == pkt.Payload[i]
 //@   assert after "copy(payload[2:], pkt.Payload[7:])" [C07.feed.adts] int: len(payload) == len(pkt.Payload) - 5 && payload[0] == 0xAF && payload[1] == 1 && forall i in [0, len(pkt.Payload) - 7) :: payload[2 + i] == pkt.Payload[7 + i]
 //@ end
+
+// C05: a video message costs at most 10 s worth of dummy audio frames, whatever its timestamp: the catch-up loop
+// terminates (the distance to the video timestamp shrinks by a frame duration per round) and starts at most
+// dummyAudioMaxCatchUpMs behind.
+//@ func (*DummyAudioFilter).handleDummyStage
+//@   props C05
+//@   loop 1 invariant [C05.dummy.bound] int64(msg.Header.TimestampAbs) - int64(filter.prevAudioTs) <= 10000
+//@   loop 1 decreases int64(msg.Header.TimestampAbs) - int64(filter.prevAudioTs)
+//@ end
